@@ -13,6 +13,10 @@ Definition ty_eqb (a b : ty) : bool :=
 
 Inductive binop := BAdd | BSub | BMul | BDiv | BMod | BEq | BNe | BLt | BLe | BGt | BGe | BAnd | BOr.
 Inductive unop := UNeg | UNot.
+(* pure string builtins (docs/STDLIB.md, String Operations / Character Access / Type Conversions) *)
+Inductive sop1 := SLen | SOfInt.                                   (* (str_length s)  (int_to_string n) *)
+Inductive sop2 := SPlus | SConcat | SEquals | SContains | SCharAt. (* (+ a b) on strings  (str_concat a b)  (str_equals a b)
+                                                                      (str_contains a b)  (char_at s i) *)
 
 Inductive expr :=
   | ENum (z : Z)
@@ -25,7 +29,10 @@ Inductive expr :=
   | ECond (c a b : expr)                   (* (cond (c a) (else b)) *)
   | EArr (es : list expr)                  (* array literal [e1, e2, ...] of ints; arrays are immutable values *)
   | EAt (a i : expr)                       (* (at a i) *)
-  | ELen (a : expr).                       (* (array_length a) *)
+  | ELen (a : expr)                        (* (array_length a) *)
+  | EStr1 (o : sop1) (a : expr)
+  | EStr2 (o : sop2) (a b : expr)
+  | ESubstr (s st ln : expr).              (* (str_substring s start length) *)
 
 Fixpoint expr_mentions (x : ident) (e : expr) : bool :=
   match e with
@@ -38,6 +45,9 @@ Fixpoint expr_mentions (x : ident) (e : expr) : bool :=
   | EArr es => (fix go (l : list expr) : bool := match l with [] => false | a :: r => expr_mentions x a || go r end) es
   | EAt a i => expr_mentions x a || expr_mentions x i
   | ELen a => expr_mentions x a
+  | EStr1 _ a => expr_mentions x a
+  | EStr2 _ a b => expr_mentions x a || expr_mentions x b
+  | ESubstr a b c => expr_mentions x a || expr_mentions x b || expr_mentions x c
   end.
 
 (* programs of the array-free fragment (the language before arrays were added) *)
@@ -49,6 +59,9 @@ Fixpoint expr_no_arrays (e : expr) : bool :=
   | ECall _ args => (fix go (l : list expr) : bool := match l with [] => true | a :: r => expr_no_arrays a && go r end) args
   | ECond c a b => expr_no_arrays c && expr_no_arrays a && expr_no_arrays b
   | EArr _ | EAt _ _ | ELen _ => false
+  | EStr1 _ a => expr_no_arrays a
+  | EStr2 _ a b => expr_no_arrays a && expr_no_arrays b
+  | ESubstr a b c => expr_no_arrays a && expr_no_arrays b && expr_no_arrays c
   end.
 
 Inductive stmt :=
@@ -142,3 +155,32 @@ Fixpoint ints_of (vs : list value) : option (list Z) :=
 (* element k of an array, None outside 0 <= k < length *)
 Definition arr_get (l : list Z) (k : Z) : option Z :=
   if ((0 <=? k) && (k <? Z.of_nat (length l)))%Z then Some (nth (Z.to_nat k) l 0%Z) else None.
+
+(* ---- strings as computed values: byte lists without NUL (a literal ends at its first NUL, no operation creates one).
+   The string builtins on their COMMON DOMAIN: where the engines disagree with each other the operation has no value here
+   (None) -- char_at outside 0 <= i < length (VM: -1, native: 0 and a message, evaluator: void; findings
+   lang:char-at-out-of-range), str_substring with a negative operand or one of 2^32 and more (the VM narrows both to 32 bits;
+   finding lang:str-substring-u32), a concatenation longer than 1 MiB (the native runtime scans at most 2^20 bytes of a
+   string operand -- strnlen(s, 1024*1024) in nl_str_concat / nl_str_substring / char_at: finding lang:native-string-1mib). *)
+Definition str_limit : Z := 4294967296.
+Definition str_max : Z := 1048576.
+Fixpoint prefixb (p s : list N) : bool :=
+  match p, s with
+  | [], _ => true
+  | x :: p', y :: s' => N.eqb x y && prefixb p' s'
+  | _ :: _, [] => false
+  end.
+(* does s contain p as a contiguous substring (strstr); the empty string is contained in every string *)
+Fixpoint containsb (s p : list N) : bool :=
+  prefixb p s || match s with [] => false | _ :: r => containsb r p end.
+Definition concat_v (x y : list N) : option (list N) :=
+  if (Z.of_nat (length x + length y) <=? str_max)%Z then Some (x ++ y) else None.
+Definition char_at_v (s : list N) (i : Z) : option Z :=
+  if ((0 <=? i) && (i <? Z.of_nat (length s)))%Z then Some (Z.of_N (nth (Z.to_nat i) s 0%N mod 256)) else None.     (* (unsigned char)s[i] *)
+(* start beyond the end: the empty string; start + length beyond the end: up to the end (the operands are clamped to the
+   length before they become naturals) *)
+Definition substr_v (s : list N) (st ln : Z) : option (list N) :=
+  if ((0 <=? st) && (st <? str_limit) && (0 <=? ln) && (ln <? str_limit))%Z
+  then let n := Z.of_nat (length s) in
+       Some (firstn (Z.to_nat (Z.min ln n)) (skipn (Z.to_nat (Z.min st n)) s))
+  else None.
